@@ -15,7 +15,7 @@ const M: u64 = 1_000_000; // the worker's transformation: x -> x + M
 #[derive(Clone, Debug, PartialEq)]
 enum COp {
     Push(u64), PushS(Vec<u64>), PushZeroCopy(Vec<u64>),
-    Pop, CopyS(usize), PeekAdv(usize), PeekOneAdv,
+    Pop, CopyItem, CopyS(usize), PeekAdv(usize), PeekOneAdv,
     Work(usize), WorkAvail, WorkOne,
     Reset, Avail, DropIt, CopyUntil(usize), PushUntil(Vec<u64>),
     DetWork { adv: usize, back: usize },
@@ -26,7 +26,7 @@ impl COp {
         match self {
             COp::Push(v) => format!("push {v}"), COp::PushS(v) => format!("pushs {}", v.iter().map(|x| x.to_string()).collect::<Vec<_>>().join(" ")),
             COp::PushZeroCopy(v) => format!("pushz {}", v.iter().map(|x| x.to_string()).collect::<Vec<_>>().join(" ")),
-            COp::Pop => "pop".into(), COp::CopyS(n) => format!("copys {n}"), COp::PeekAdv(n) => format!("peekadv {n}"), COp::PeekOneAdv => "peek1adv".into(),
+            COp::Pop => "pop".into(), COp::CopyItem => "copy1".into(), COp::CopyS(n) => format!("copys {n}"), COp::PeekAdv(n) => format!("peekadv {n}"), COp::PeekOneAdv => "peek1adv".into(),
             COp::Work(n) => format!("work {n}"), COp::WorkAvail => "workavail".into(), COp::WorkOne => "workone".into(),
             COp::CopyUntil(n) => format!("copyuntil {n}"), COp::PushUntil(v) => format!("pushuntil {}", v.iter().map(|x| x.to_string()).collect::<Vec<_>>().join(" ")),
             COp::Reset => "reset".into(), COp::Avail => "avail".into(), COp::DropIt => "drop".into(), COp::DetWork { adv, back } => format!("detwork {adv} {back}"),
@@ -38,7 +38,7 @@ impl COp {
         let list = |ws: &[&str]| ws.iter().map(|s| s.parse::<u64>().ok()).collect::<Option<Vec<u64>>>();
         Some(match w.as_slice() {
             ["push", v] => COp::Push(v.parse().ok()?), ["pushs", r @ ..] => COp::PushS(list(r)?), ["pushz", r @ ..] => COp::PushZeroCopy(list(r)?),
-            ["pop"] => COp::Pop, ["copys", k] => COp::CopyS(n(k)?), ["peekadv", k] => COp::PeekAdv(n(k)?), ["peek1adv"] => COp::PeekOneAdv,
+            ["pop"] => COp::Pop, ["copy1"] => COp::CopyItem, ["copys", k] => COp::CopyS(n(k)?), ["peekadv", k] => COp::PeekAdv(n(k)?), ["peek1adv"] => COp::PeekOneAdv,
             ["work", k] => COp::Work(n(k)?), ["workavail"] => COp::WorkAvail, ["workone"] => COp::WorkOne,
             ["copyuntil", k] => COp::CopyUntil(n(k)?), ["pushuntil", r @ ..] => COp::PushUntil(list(r)?),
             ["reset"] => COp::Reset, ["avail"] => COp::Avail, ["drop"] => COp::DropIt, ["detwork", a, b] => COp::DetWork { adv: n(a)?, back: n(b)? },
@@ -227,6 +227,7 @@ fn run_cons<const W: bool>(c: ConsIter<'static, Buf, W>, ops: Vec<COp>, logs: Ar
         let c = match it.as_mut() { Some(c) => c, None => break };
         match &op {
             COp::Pop => { pend(t, c.index(), 1, len, false, "pop"); if let Some(v) = c.pop() { logs.lock().unwrap().consumed.push(v); } clear_pend(t); }
+            COp::CopyItem => { pend(t, c.index(), 1, len, false, "copy_item"); let mut d = 0u64; if c.copy_item(&mut d).is_some() { logs.lock().unwrap().consumed.push(d); } clear_pend(t); }
             COp::CopyS(n) => { let mut d = vec![0u64; *n]; pend(t, c.index(), *n, len, false, "copy_slice"); if c.copy_slice(&mut d).is_some() { logs.lock().unwrap().consumed.extend(d); } clear_pend(t); }
             COp::PeekAdv(n) => {
                 let idx = c.index();
@@ -383,7 +384,7 @@ fn gen_program(rng: &mut Rng, seed: u64) -> Program {
     let mut p = vec![]; let mut w = vec![]; let mut c = vec![];
     for _ in 0..np { p.push(match rng.below(10) { 0..=3 => COp::Push(vals(1)[0]), 4..=6 => COp::PushS(vals(rng.range(1, len - 1).max(1))), 7 => COp::PushZeroCopy(vals(rng.range(1, len - 1).max(1))), 8 => COp::PushUntil(vals(rng.range(1, len - 1).max(1))), _ => COp::Avail }); }
     for _ in 0..nw { w.push(match rng.below(10) { 0..=2 => COp::WorkOne, 3..=5 => COp::Work(rng.range(1, len - 1).max(1)), 6 | 7 => COp::WorkAvail, 8 => COp::DetWork { adv: rng.range(1, len - 1).max(1), back: rng.range(0, 2) }, _ => COp::Avail }); }
-    for _ in 0..nc { c.push(match rng.below(12) { 0..=3 => COp::Pop, 4..=6 => COp::CopyS(rng.range(1, len - 1).max(1)), 7 | 8 => COp::PeekAdv(rng.range(1, len - 1).max(1)), 9 => COp::PeekOneAdv, 10 => if rng.chance(1, 2) { COp::Avail } else { COp::CopyUntil(rng.range(1, len - 1).max(1)) }, _ => if rng.chance(2, 3) { COp::Reset } else { COp::Pop } }); }
+    for _ in 0..nc { c.push(match rng.below(12) { 0..=2 => COp::Pop, 3 => COp::CopyItem, 4..=6 => COp::CopyS(rng.range(1, len - 1).max(1)), 7 | 8 => COp::PeekAdv(rng.range(1, len - 1).max(1)), 9 => COp::PeekOneAdv, 10 => if rng.chance(1, 2) { COp::Avail } else { COp::CopyUntil(rng.range(1, len - 1).max(1)) }, _ => if rng.chance(2, 3) { COp::Reset } else { COp::Pop } }); }
     // sometimes drop early (survivors keep operating)
     if rng.chance(1, 4) { let k = rng.below(p.len() + 1); p.insert(k, COp::DropIt); p.truncate(k + 1); }
     if rng.chance(1, 5) { let k = rng.below(c.len() + 1); c.insert(k, COp::DropIt); c.truncate(k + 1); }
